@@ -45,6 +45,10 @@ func (p *FullScanPlan) Next(ctx *ExecuteCtx) ([]byte, []byte, error) {
 		if key == nil {
 			break
 		}
+		// values cached for the previous pair must not leak into this one
+		if ctx != nil {
+			ctx.Clear()
+		}
 		ok, err := p.Filter.Filter(NewKVP(key, val), ctx)
 		if err != nil {
 			return nil, nil, err
@@ -140,6 +144,10 @@ func (p *PrefixScanPlan) Next(ctx *ExecuteCtx) ([]byte, []byte, error) {
 		}
 
 		// Filter with the expression
+		// values cached for the previous pair must not leak into this one
+		if ctx != nil {
+			ctx.Clear()
+		}
 		ok, err := p.Filter.Filter(NewKVP(key, val), ctx)
 		if err != nil {
 			return nil, nil, err
@@ -256,6 +264,10 @@ func (p *RangeScanPlan) Next(ctx *ExecuteCtx) ([]byte, []byte, error) {
 		}
 
 		// Filter with the expression
+		// values cached for the previous pair must not leak into this one
+		if ctx != nil {
+			ctx.Clear()
+		}
 		ok, err := p.Filter.Filter(NewKVP(key, val), ctx)
 		if err != nil {
 			return nil, nil, err
@@ -370,6 +382,10 @@ func (p *MultiGetPlan) Next(ctx *ExecuteCtx) ([]byte, []byte, error) {
 		if val == nil {
 			// No Value
 			continue
+		}
+		// values cached for the previous pair must not leak into this one
+		if ctx != nil {
+			ctx.Clear()
 		}
 		ok, err := p.Filter.Filter(NewKVP(key, val), ctx)
 		if err != nil {
